@@ -28,7 +28,7 @@ pub struct C14;
 pub const BEHAVIOURS: u64 = 5;
 
 #[derive(Clone)]
-enum Blueprint {
+pub enum Blueprint {
     Valve { st: ValveState, goldsrc: bool, quirk: bool, enc: [vm::KindEnc; 3], players_silent: bool },
     Gs1(Vec<Vec<u8>>),
     Gs2(Gs2State),
@@ -44,12 +44,12 @@ enum Blueprint {
 }
 
 /// The host as it exists in the world: the game's documented ports.
-struct HostPorts {
-    main: u16,
-    bedrock: u16,
+pub struct HostPorts {
+    pub main: u16,
+    pub bedrock: u16,
 }
 
-fn blueprint(game: &Game, behaviour: u64, t: &mut Tape) -> Blueprint {
+pub fn blueprint(game: &Game, behaviour: u64, t: &mut Tape) -> Blueprint {
     if behaviour == 4 {
         return Blueprint::Nothing;
     }
@@ -144,7 +144,7 @@ fn blueprint(game: &Game, behaviour: u64, t: &mut Tape) -> Blueprint {
     }
 }
 
-fn world_from(bp: &Blueprint, ports: &HostPorts, rt_seed: u64) -> World {
+pub fn world_from(bp: &Blueprint, ports: &HostPorts, rt_seed: u64) -> World {
     let mut w = World::new(Tape::generate(rt_seed));
     let addr = SocketAddr::new(SERVER_IP, ports.main);
     match bp {
@@ -208,7 +208,8 @@ fn world_from(bp: &Blueprint, ports: &HostPorts, rt_seed: u64) -> World {
 
 /// (module-level entry, protocol-level entry) for a definition.
 fn paths(id: &'static str, game: &Game) -> (Option<Entry>, Option<Entry>) {
-    let module_valve = VALVE_GAMES.iter().position(|r| r.module == id).map(Entry::ValveGame);
+    // modules are matched by id, else by the game's full name (ut2004 <-> unrealtournament2004)
+    let module_valve = VALVE_GAMES.iter().position(|r| r.module == id || r.name == game.name).map(Entry::ValveGame);
     match &game.protocol {
         Protocol::Valve(engine) => {
             let gs: GatheringSettings = game.request_settings.clone().into();
@@ -220,7 +221,7 @@ fn paths(id: &'static str, game: &Game) -> (Option<Entry>, Option<Entry>) {
                 GameSpyVersion::Two => 2,
                 GameSpyVersion::Three => 3,
             };
-            (GAMESPY_GAMES.iter().position(|r| r.module == id).map(Entry::GsGame), Some(Entry::Gs { version, vars: false }))
+            (GAMESPY_GAMES.iter().position(|r| r.module == id || r.name == game.name).map(Entry::GsGame), Some(Entry::Gs { version, vars: false }))
         }
         Protocol::Quake(v) => {
             let version = match v {
@@ -228,11 +229,11 @@ fn paths(id: &'static str, game: &Game) -> (Option<Entry>, Option<Entry>) {
                 QuakeVersion::Two => 2,
                 QuakeVersion::Three => 3,
             };
-            (QUAKE_GAMES.iter().position(|r| r.module == id).map(Entry::QuakeGame), Some(Entry::Quake { version }))
+            (QUAKE_GAMES.iter().position(|r| r.module == id || r.name == game.name).map(Entry::QuakeGame), Some(Entry::Quake { version }))
         }
         Protocol::Unreal2 => {
             // the definition-driven path with no extra settings uses the protocol's default gathering
-            (UNREAL2_GAMES.iter().position(|r| r.module == id).map(Entry::Unreal2Game), Some(Entry::Unreal2 { gather: Default::default() }))
+            (UNREAL2_GAMES.iter().position(|r| r.module == id || r.name == game.name).map(Entry::Unreal2Game), Some(Entry::Unreal2 { gather: Default::default() }))
         }
         Protocol::PROPRIETARY(pp) => {
             match pp {
